@@ -1,14 +1,17 @@
 (* C04 — Closures capture definition-time values; calls are call-site independent.
    Property theorems only.  Model: Env.v (free_vars = collect_free_variables, capture),
    Eval.v (bind_params, call_passed = FunctionDef::call, the Expr::Lambda arm of evalE).
-   PARTIAL: the headline consequence "a function all of whose free names were bound at
-   definition returns the same result from every call site" is stated below as
-   [C04_call_site_independent_full] and decided by the implementation-level context search;
-   the theorems proved here are the mechanisms it rests on (capture by value, lookup order,
-   argument binding and arity for every parameter list). *)
+   The headline consequence "a function all of whose free names were bound at definition
+   returns the same result from every call site" is theorem C04_call_site_independent: for
+   hereditarily closed function values (Closed.v: every free name of the body is a parameter,
+   a captured name or the function's own name; the same for every captured function; no
+   assignment expression outside do-block statement position — that exclusion is the open
+   finding F32) FunctionDef::call gives the same outcome and store from EVERY scope chain with
+   the same `inputs`, at every call depth.  The other theorems are the mechanisms it rests on. *)
 From Coq Require Import String List ZArith Bool.
 Require Import Blots.Num Blots.gen.Builtins Blots.Ast Blots.Value Blots.Outcome Blots.Binop
-               Blots.Env Blots.Eval Blots.proofs.Closures.
+               Blots.Env Blots.Eval Blots.BuiltinsHof Blots.Program Blots.EvalInst
+               Blots.proofs.Closures Blots.proofs.StoreMono Blots.proofs.Closed Blots.proofs.CallSite.
 Import ListNotations.
 Open Scope string_scope.
 
@@ -87,12 +90,60 @@ Check C04_binding_total : forall ps args acc,
   bind_params ps 0 args acc <> None.
 Print Assumptions C04_binding_total.
 
-(* the full statement (kept, not yet a theorem): see DESIGN.md section 6 C04 *)
-Definition C04_call_site_independent_full : Prop :=
-  forall release bi bu d fr1 fr2 this f args st,
-    (* f hereditarily closed after capture, args closed, same inputs *)
-    lookup fr1 "inputs" = lookup fr2 "inputs" ->
-    AD release bi bu d fr1 this f args st = AD release bi bu d fr2 this f args st.
+(* CALL-SITE INDEPENDENCE.  Callback positions (via / where / map / filter / reduce / sort_by ...)
+   are instances: they all go through this same FunctionDef::call. *)
+Theorem C04_call_site_independent : forall release d fr1 fr2 this f args st,
+  lookup fr1 "inputs" = lookup fr2 "inputs" ->
+  (forall v, lookup fr1 "inputs" = Some v -> closed_value st v) ->
+  closed_value st this -> closed_value st f -> closed_list st args ->
+  AD release binop_impl builtin_impl d fr1 this f args st =
+  AD release binop_impl builtin_impl d fr2 this f args st.
+Proof. exact call_site_independent. Qed.
+Check C04_call_site_independent : forall release d fr1 fr2 this f args st,
+  lookup fr1 "inputs" = lookup fr2 "inputs" ->
+  (forall v, lookup fr1 "inputs" = Some v -> closed_value st v) ->
+  closed_value st this -> closed_value st f -> closed_list st args ->
+  AD release binop_impl builtin_impl d fr1 this f args st =
+  AD release binop_impl builtin_impl d fr2 this f args st.
+Print Assumptions C04_call_site_independent.
+
+(* what such a call returns is again closed (so the property is inherited by returned closures) *)
+Theorem C04_call_result_closed : forall release d fr this f args st r st',
+  (forall v, lookup fr "inputs" = Some v -> closed_value st v) ->
+  closed_value st this -> closed_value st f -> closed_list st args ->
+  AD release binop_impl builtin_impl d fr this f args st = (r, st') ->
+  store_le st st' /\ (forall v, r = Ok v -> closed_value st' v).
+Proof. exact call_result_closed. Qed.
+Check C04_call_result_closed : forall release d fr this f args st r st',
+  (forall v, lookup fr "inputs" = Some v -> closed_value st v) ->
+  closed_value st this -> closed_value st f -> closed_list st args ->
+  AD release binop_impl builtin_impl d fr this f args st = (r, st') ->
+  store_le st st' /\ (forall v, r = Ok v -> closed_value st' v).
+Print Assumptions C04_call_result_closed.
+
+(* non-vacuity: `k = 3; f = x => x + k` and a curried closure are hereditarily closed, and the
+   theorem's conclusion is observed on two very different call sites *)
+Definition ex_f : value :=
+  VLam 0 [AReq "x"] (EBin Add (EId "x") (EId "k")) [("k", VNum (num_of_Z 3))].
+Definition ex_g : value :=      (* y => inner(y) where inner is the captured closure ex_f *)
+  VLam 1 [AReq "y"] (ECall (EId "inner") [EId "y"]) [("inner", ex_f)].
+Example C04_closed_examples : closed_value [Some "f"; None] ex_f /\ closed_value [Some "f"; None] ex_g.
+Proof.
+  split; apply closed_VLam; (split; [reflexivity|split]).
+  - intros x Hx. cbn in Hx. destruct Hx as [<-|[]]. left. discriminate.
+  - repeat constructor.
+  - intros x Hx. cbn in Hx. destruct Hx as [<-|[]]. left. discriminate.
+  - constructor; [|constructor]. cbn [snd]. apply closed_VLam. split; [reflexivity|split].
+    + intros x Hx. cbn in Hx. destruct Hx as [<-|[]]. left. discriminate.
+    + repeat constructor.
+Qed.
+Example C04_two_call_sites :
+  let st := [Some "f"; None] in
+  let top := [(FOwned, [("k", VNum (num_of_Z 100)); ("x", VNum (num_of_Z 7))])] in
+  let nested := [(FOwned, [("inner", VNull)]); (FShared, [("k", VStr "shadow")]); (FOwned, [])] in
+  fst (AD true binop_impl builtin_impl 10 top ex_g ex_g [VNum (num_of_Z 1)] st) = Ok (VNum (num_of_Z 4)) /\
+  fst (AD true binop_impl builtin_impl 10 nested ex_g ex_g [VNum (num_of_Z 1)] st) = Ok (VNum (num_of_Z 4)).
+Proof. vm_compute. split; reflexivity. Qed.
 
 Example C04_documented_shape_example :
   documented_shape [AReq "a"; AReq "b"; AOpt "c"; ARest "r"] = true /\
